@@ -48,8 +48,8 @@ Definition outcome_rel (out : dout (value * gerr) * dst) (m : res value * vdstat
 Lemma canon_rel {A} (inj : A -> value) out m : call_rel inj out m -> outcome_rel (canon inj out) m.
 Proof.
   unfold call_rel, outcome_rel, canon. destruct (fst m) as [x|e| |]; cbn [fst snd].
-  - intros (a & -> & -> & E). split; [reflexivity|exact E].
-  - intros (a & -> & E). split; [eexists; reflexivity|exact E].
+  - intros (a & -> & -> & E). split; [reflexivity|now rewrite E].
+  - intros (a & -> & E). split; [eexists; reflexivity|now rewrite E].
   - intros ->. reflexivity.
   - intros ->. reflexivity.
 Qed.
@@ -99,7 +99,7 @@ Theorem src_get_sound c idle addr s v sd : 0 <= addr < 65536 ->
     rbuf (rd s) ++ d = pre ++ c_colon :: body ++ c_nl :: post /\
     valid_get_response addr v body.
 Proof.
-  intros Ha E. destruct (go_VeCommandGet_spec c addr s idle Ha) as (o & idle' & E' & R).
+  intros Ha E. destruct (go_VeCommandGet_spec c addr s idle Ha) as (o & idle' & E' & R & _).
   rewrite E in E'. injection E' as <- ->. cbn [d_vd].
   pose proof (res_rel_ok _ _ v R eq_refl) as Em.
   destruct (ve_command_get c idle addr s) as [r s'] eqn:Eg. cbn [fst snd] in *. subst r.
@@ -112,7 +112,7 @@ Lemma call_rel_ok {A} (inj : A -> value) out m a sd :
 Proof.
   unfold call_rel. destruct m as [r s']. cbn [fst snd]. intros H ->. cbn [fst snd] in H.
   destruct r as [x|e| |].
-  - destruct H as (a' & E & -> & <-). injection E as ->. reflexivity.
+  - destruct H as (a' & E & -> & Es). injection E as ->. cbn [snd] in Es. rewrite Es. reflexivity.
   - destruct H as (a' & E & _). discriminate.
   - discriminate.
   - discriminate.
